@@ -39,6 +39,14 @@ def hintOf (j : Nat) (l : List Nat) : String :=
   let n := rest.length
   s!"{n} {n} {n} {match rest.head? with | some x => toString x | none => "none"}"
 
+/-- two successive `Iterator::nth` calls on an iterator that still has to yield `l` (an overshooting
+`nth` exhausts it, as for `Vec`), then `len()` and the next item -/
+def nthOf (a b : Nat) (l : List Nat) : String :=
+  let o (x : Option Nat) : String := match x with | some x => toString x | none => "none"
+  let l1 := l.drop (a + 1)
+  let l2 := l1.drop (b + 1)
+  s!"{o (l.drop a).head?} {o (l1.drop b).head?} {l2.length} {o l2.head?}"
+
 def nat2 (x y : String) : Option (Nat × Nat) := do
   let a ← parseNat x; let b ← parseNat y; pure (a, b)
 
@@ -168,6 +176,8 @@ def rstep (r : RSt) (toks : List String) : RSt × String :=
     | some (k, j) => obs r (iterFrom W r.a k) (hintOf j) | none => bad
   | ["into_iter_hint", k, j] => match nat2 k j with
     | some (k, j) => obs r (iterFrom W r.a k) (hintOf j) | none => bad
+  | ["iter_nth", k, a, b] => match nat2 k a, parseNat b with
+    | some (k, a), some b => obs r (iterFrom W r.a k) (nthOf a b) | _, _ => bad
   | ["into_iter"] => obs r (iterFrom W r.a 0) fmtNatList
   -- raw word write through `as_mut_slice` (safe indexing)
   | ["word_set", j, x] => match nat2 j x with
